@@ -497,4 +497,13 @@ def replay_file(path):
         print(obj["what"])
         print("\n".join(obj.get("tlc_output_tail", [])))
         return 1
+    if kind == "tlaps":
+        # re-run the proof: the modules are the current ones of spec/
+        ctx = Ctx("REPLAY", "quick", 0)
+        needs = tuple(os.path.basename(f)[:-4] for f in sorted(os.listdir(SPEC)) if f.endswith("Idx.tla"))
+        n = ctx.tlaps("replay", obj["module"], needs=needs)
+        for v in ctx.violations:
+            print(v["what"])
+        print("replay: %s" % ("%d obligations proved" % n if n else "unproved obligations"))
+        return 0 if n else 1
     return 2
